@@ -16,7 +16,10 @@ Enumerated (quick is a sub-space of thorough; see cases()):
           cell payloads at every alignment (row 47, column 47, SST index 47, RK / NUMBER values, doubles with the pair at byte 0..6,
           UTF-16 strings with the pair at even and odd offsets, sheet name)
   ppt     pptbin encrypted True / "keep_docprops" x layout x Current User stream vs plain
-  doc     .doc fixtures with the FIB fEncrypted bit (0x0100 of the flags word at 0x0A) toggled, both directions
+  doc     .doc fixtures with the FIB fEncrypted bit (0x0100 of the flags word at 0x0A) toggled, both directions; and the
+          NEIGHBOUR-BIT family: every other bit of the FibBase header words around it flipped alone (a plain file stays plain, the
+          encrypted fixture stays encrypted) and together with fEncrypted (encrypted).  quick: the 16 bits of the flags word, the 8
+          bits of the second flag byte (0x13) and the 32 bits of lKey (0x0E); thorough: all 256 bits of the 32-byte FibBase
   pdf     RC4-40 / RC4-128 (own writer), AES-128 / AES-256-R5 / AES-256 (pypdf writer in a separate generator process) x user
           password {"", "pw"} x owner password {"", "own"}; AES cases are extracted in a fresh interpreter ("fresh") or in one
           that has extracted an AES-256-R5 file before ("warm")
@@ -24,6 +27,18 @@ Enumerated (quick is a sub-space of thorough; see cases()):
   7z      7zAES coder in folder k for every layout x coder x chaining x header coding, 7zAES on the encoded header, vs plain
   epub    encryption.xml with EncryptedData for content document k / all, rights.xml, both, vs plain and look-alikes
   fixture the 11 protected fixtures (enc) and every other fixture of the test suite (plain)
+Neighbour / protection families (what sits NEXT to an encryption indicator is not an encryption indicator, and does not mask one):
+  zip     every general purpose flag bit 1..15 alone on member k (plain; bits 6 and 13 - strong encryption / masked headers - alone
+          are not judged) and together with bit 0 (encrypted)
+  xls     a record at globals index k whose number differs from FILEPASS (0x002F) in exactly one bit, or is 0x2F00, carrying a FILEPASS
+          payload (plain); FILEPASS payload variants XOR obfuscation / RC4 / RC4 CryptoAPI v2, v3, v4 (encrypted); non-zero workbook
+          protection records PROTECT, PASSWORD, WINDOWPROTECT, OBJPROTECT, SCENPROTECT, PROT4REV, PROT4REVPASS, FILESHARING, WRITEPROT
+          one by one and all together (editing protection, not encryption: plain)
+  ooxml   documentProtection / writeProtection (docx), sheetProtection / workbookProtection / fileSharing (xlsx), modifyVerifier (pptx)
+          with password hashes, one by one and all together (plain)
+  odf     table:protected + table:protection-key (ods), protected text:section with text:protection-key (odt) (plain)
+  pdf     empty user password with every single permission bit of /P cleared (print, modify, extract, annotate, fill, accessibility,
+          assemble, print-hq) and all of them cleared: still "same as the unencrypted original"; with a user password: encrypted
 Seams: direct extractor, read_file, cli.main (a harness-side spy on read_file records what the CLI swallows).
 """
 from __future__ import annotations
@@ -55,6 +70,19 @@ PDF_RC4 = ["RC4-40", "RC4-128"]
 PDF_AES = ["AES-128", "AES-256-R5", "AES-256"]
 PWS = [["", ""], ["", "own"], ["pw", ""], ["pw", "own"]]
 ZIP_ODD = ["method1", "method6", "method9", "method98", "badcrc", "datadescriptor", "utf8flag"]
+FIB_ENC_BIT = 0x0A * 8 + 8          # fEncrypted: bit 8 of the little-endian flags word at FIB offset 0x0A
+FIB_FLAG_BITS = list(range(0x0A * 8, 0x0C * 8))
+FIB_QUICK_BITS = FIB_FLAG_BITS + list(range(0x13 * 8, 0x14 * 8)) + list(range(0x0E * 8, 0x12 * 8))
+FIB_ALL_BITS = list(range(32 * 8))
+PDF_PERM_BITS = [3, 4, 5, 6, 9, 10, 11, 12]           # 1-based bit positions of /P that ISO 32000 table 22 defines
+PDF_PERMS = [-4 & ~(1 << (b - 1)) for b in PDF_PERM_BITS] + [-3904]
+XLS_NEAR_IDS = [0x002F ^ (1 << b) for b in range(16)] + [0x2F00]
+XLS_FILEPASS_VARIANTS = ["xor", "rc4", "capi2", "capi3", "capi4"]
+XLS_PROTECT = ["PROTECT", "PASSWORD", "WINDOWPROTECT", "OBJPROTECT", "SCENPROTECT", "PROT4REV", "PROT4REVPASS", "FILESHARING", "WRITEPROT", "all"]
+OOXML_PROTECT = {"docx": ["documentProtection", "writeProtection", "all"], "xlsx": ["sheetProtection", "workbookProtection", "fileSharing", "all"],
+                 "pptx": ["modifyVerifier"]}
+ODF_PROTECT = {"ods": ["table"], "odt": ["section"]}
+ZIP_FLAG_UNSETTLED = (6, 13)        # alone (without bit 0): strong-encryption / masked-local-header bits, meaning not settled
 DOC_FIXTURES = ["legacy_ms/Speech_Prime_Minister_of_The_Netherlands_EN.doc", "legacy_ms/headings.doc",
                 "legacy_ms/password_protected/doc-password-protected-pw123.doc"]
 
@@ -162,7 +190,55 @@ def build_ooxml(fmt, case):
         data = getattr(ooxml, fmt)(text_doc(tk, case["doc"]))
     if case.get("member"):
         data = _zip_write(_zip_members(data) + [(case["member"], _dummy(64, "zm"), zipfile.ZIP_DEFLATED)])
+    if k == "protect":
+        data = ooxml_protect(data, fmt, case["v"])
     return {"data": data, "ext": fmt, "expect": "plain"}
+
+
+def _b64(n, tag):
+    return base64.b64encode(_dummy(n, tag)).decode("ascii")
+
+
+_AGILE_HASH = ('cryptProviderType="rsaAES" cryptAlgorithmClass="hash" cryptAlgorithmType="typeAny" cryptAlgorithmSid="14" '
+               'spinCount="100000" saltData="%s" hashData="%s"')
+
+
+def ooxml_protect(data, fmt, v):
+    """Editing / write protection markup with password hashes ([ISO 29500-1] 17.15.1.29 documentProtection, 17.15.1.93
+    writeProtection, 18.3.1.85 sheetProtection, 18.2.29 workbookProtection, 18.2.12 fileSharing, 19.2.1.19 modifyVerifier).
+    None of it encrypts anything: the package stays a plain ZIP with readable parts."""
+    wattrs = ('w:cryptProviderType="rsaAES" w:cryptAlgorithmClass="hash" w:cryptAlgorithmType="typeAny" w:cryptAlgorithmSid="14" '
+              'w:cryptSpinCount="100000" w:hash="%s" w:salt="%s"' % (_b64(64, "wh"), _b64(16, "ws")))
+    ins = {
+        "documentProtection": ("word/settings.xml", "<w:defaultTabStop", '<w:documentProtection w:edit="readOnly" w:enforcement="1" %s/>' % wattrs, "before"),
+        "writeProtection": ("word/settings.xml", "<w:zoom", '<w:writeProtection w:recommended="1" %s/>' % wattrs, "before"),
+        "sheetProtection": ("xl/worksheets/sheet1.xml", "</sheetData>", '<sheetProtection password="CC1A" algorithmName="SHA-512" hashValue="%s" saltValue="%s" '
+                            'spinCount="100000" sheet="1" objects="1" scenarios="1"/>' % (_b64(64, "sh"), _b64(16, "ss")), "after"),
+        "workbookProtection": ("xl/workbook.xml", "<bookViews>", '<workbookProtection workbookPassword="CC1A" workbookAlgorithmName="SHA-512" '
+                               'workbookHashValue="%s" workbookSaltValue="%s" workbookSpinCount="100000" lockStructure="1" lockWindows="1"/>'
+                               % (_b64(64, "bh"), _b64(16, "bs")), "before"),
+        "modifyVerifier": ("ppt/presentation.xml", "</p:presentation>", "<p:modifyVerifier %s/>" % (_AGILE_HASH % (_b64(16, "ps"), _b64(64, "ph"))), "before"),
+    }
+    fs = '<fileSharing readOnlyRecommended="1" userName="verif" reservationPassword="CC1A" algorithmName="SHA-512" hashValue="%s" saltValue="%s" spinCount="100000"/>' \
+        % (_b64(64, "fh"), _b64(16, "fs"))
+    todo = [x for x in OOXML_PROTECT[fmt] if x != "all"] if v == "all" else [v]
+    members = _zip_members(data)
+    parts = {n: d for n, d, _ in members}
+    for name in todo:
+        if name == "fileSharing":         # schema order: fileSharing, workbookPr, workbookProtection, bookViews
+            part, anchor, text, side = "xl/workbook.xml", ("<workbookProtection" if b"<workbookProtection" in parts["xl/workbook.xml"] else "<bookViews>"), fs, "before"
+        else:
+            part, anchor, text, side = ins[name]
+        xml = parts[part].decode("utf-8")
+        if xml.count(anchor) != 1:
+            raise AssertionError("anchor %r not found once in %s" % (anchor, part))
+        xml = xml.replace(anchor, text + anchor if side == "before" else anchor + text)
+        parts[part] = xml.encode("utf-8")
+    import xml.etree.ElementTree as ET
+    for n in parts:
+        if n.endswith(".xml") and parts[n] != dict((a, b) for a, b, _ in members)[n]:
+            ET.fromstring(parts[n])                 # still well-formed
+    return _zip_write([(n, parts[n], ct) for n, _, ct in members])
 
 
 def _odf_plain(fmt, d, images=None, opts=None, doc=None):
@@ -256,6 +332,24 @@ def build_odf(fmt, case):
     fmt = case["ext"]
     if k == "plain":
         return {"data": _odf_plain(fmt, case["doc"]), "ext": fmt, "expect": "plain"}
+    if k == "protect":
+        data = _odf_plain(fmt, case["doc"])
+        members = _zip_members(data)
+        xml = dict((n, d) for n, d, _ in members)["content.xml"].decode("utf-8")
+        key = 'protection-key="%s"' % _b64(20, "opk")
+        alg = 'protection-key-digest-algorithm="http://www.w3.org/2000/09/xmldsig#sha1"'
+        if case["v"] == "table":
+            if fmt != "ods" or "<table:table table:name=" not in xml:
+                return None
+            xml = xml.replace("<table:table table:name=", f'<table:table table:protected="true" table:{key} table:{alg} table:name=')
+        else:
+            if fmt != "odt" or xml.count("<office:text>") != 1 or xml.count("</office:text>") != 1:
+                return None
+            xml = xml.replace("<office:text>", f'<office:text><text:section text:name="Sct" text:protected="true" text:{key} text:{alg}>')
+            xml = xml.replace("</office:text>", "</text:section></office:text>")
+        import xml.etree.ElementTree as ET
+        ET.fromstring(xml.encode("utf-8"))
+        return {"data": _zip_write([(n, xml.encode("utf-8") if n == "content.xml" else d, ct) for n, d, ct in members]), "ext": fmt, "expect": "plain"}
     if k == "enc":
         base = odf_base(fmt, case["doc"])
         ents = odf_entries(base)
@@ -376,6 +470,33 @@ def build_xls(fmt, case):
         return {"data": data, "ext": "xls", "expect": "enc"}
     if k == "plain":
         return {"data": biff8.xls(sheet_doc(tk, case["doc"]), None, {"stream_name": case["stream"]}), "ext": "xls", "expect": "plain"}
+    if k in ("nearid", "filepass-v", "protect"):
+        if k == "nearid":
+            if case["id"] == 0x002F:
+                raise AssertionError("0x002F is FILEPASS itself")
+            raw, expect = biff8.rec(case["id"], biff8.FILEPASS_RC4[4:]), "plain"
+        elif k == "filepass-v":
+            raw, expect = xls_filepass(case["v"]), "enc"
+        else:
+            raw, expect = xls_protect_records(case["v"]), "plain"
+        data = biff8.xls(sheet_doc(tk, case["doc"]), None, {"globals_insert": [case["at"], raw], "stream_name": case["stream"]})
+        # self-check: walk the globals substream; the inserted bytes are at record index `at`, FILEPASS is there iff expected
+        import olefile
+        with olefile.OleFileIO(io.BytesIO(data)) as ole:
+            wb = ole.openstream(case["stream"]).read()
+        off, idx, ids, seen = 0, 0, [], False
+        while off + 4 <= len(wb):
+            rid, ln = struct.unpack_from("<HH", wb, off)
+            if idx == case["at"] and wb[off:off + len(raw)] == raw:
+                seen = True
+            ids.append(rid)
+            off += 4 + ln
+            idx += 1
+            if rid == 0x000A:
+                break
+        if not seen or (0x002F in ids) != (expect == "enc"):
+            raise AssertionError("workbook globals are not what they should be")
+        return {"data": data, "ext": "xls", "expect": expect}
     doc, opts = _xls_look_doc(case["v"], tk)
     opts["stream_name"] = case["stream"]
     try:
@@ -385,6 +506,30 @@ def build_xls(fmt, case):
     if b"\x2f\x00" not in data:
         raise AssertionError("look-alike workbook does not contain 2F 00")
     return {"data": data, "ext": "xls", "expect": "plain"}
+
+
+def xls_filepass(v):
+    """FILEPASS payloads of [MS-XLS] 2.4.117: XOR obfuscation, RC4 ([MS-OFFCRYPTO] 2.3.6.1), RC4 CryptoAPI (2.3.5.1)"""
+    from verif.gen import biff8
+    if v == "xor":
+        return biff8.rec(0x002F, struct.pack("<HHH", 0, 0x6E2A, 0xCC1A))
+    if v == "rc4":
+        return biff8.FILEPASS_RC4
+    major = int(v[4:])
+    csp = "Microsoft Enhanced Cryptographic Provider v1.0\0".encode("utf-16-le")
+    header = struct.pack("<IIIIIIII", 0x04, 0, 0x6801, 0x8004, 128, 1, 0, 0) + csp          # fCryptoAPI, RC4, SHA-1, 128 bit, PROV_RSA_FULL
+    verifier = struct.pack("<I", 16) + _dummy(16, "salt") + _dummy(16, "ev") + struct.pack("<I", 20) + _dummy(20, "evh")
+    return biff8.rec(0x002F, struct.pack("<HHHII", 1, major, 2, 0x04, len(header)) + header + verifier)
+
+
+def xls_protect_records(v):
+    from verif.gen import biff8
+    recs = {"PROTECT": biff8.rec(0x0012, struct.pack("<H", 1)), "PASSWORD": biff8.rec(0x0013, struct.pack("<H", 0xCC1A)),
+            "WINDOWPROTECT": biff8.rec(0x0019, struct.pack("<H", 1)), "OBJPROTECT": biff8.rec(0x0063, struct.pack("<H", 1)),
+            "SCENPROTECT": biff8.rec(0x00DD, struct.pack("<H", 1)), "PROT4REV": biff8.rec(0x01AF, struct.pack("<H", 1)),
+            "PROT4REVPASS": biff8.rec(0x01BC, struct.pack("<H", 0xCC1A)),
+            "FILESHARING": biff8.rec(0x005B, struct.pack("<HHH", 1, 0xCC1A, 0) + biff8.ustr("verif")), "WRITEPROT": biff8.rec(0x0086)}
+    return b"".join(recs[n] for n in XLS_PROTECT if n != "all") if v == "all" else recs[v]
 
 
 def build_ppt(fmt, case):
@@ -401,6 +546,13 @@ def build_ppt(fmt, case):
 
 def fib_toggle(data: bytes):
     """flip bit 0x0100 of the FIB flags word (offset 0x0A of the WordDocument stream); returns (new bytes, old flags)"""
+    new, old = fib_patch(data, [FIB_ENC_BIT])
+    return new, struct.unpack_from("<H", old, 0x0A)[0]
+
+
+def fib_patch(data: bytes, bits):
+    """flip the given bits (index = byte offset * 8 + bit number, little-endian words: bit 8 of the word at 0x0A is bit 0 of the byte
+    at 0x0B) of the 32-byte FibBase at the start of the WordDocument stream; returns (new bytes, the old FibBase)"""
     import olefile
     bio = io.BytesIO(data)
     with olefile.OleFileIO(bio) as ole:
@@ -408,29 +560,49 @@ def fib_toggle(data: bytes):
         ent = ole.direntries[sid]
         ss, ms = ole.sectorsize, ole.minisectorsize
         if ent.size >= ole.minisectorcutoff:
-            off = (ent.isectStart + 1) * ss + 0x0A
+            off = (ent.isectStart + 1) * ss
         else:
-            pos = ent.isectStart * ms + 0x0A           # position inside the mini stream (the root entry's chain)
+            pos = ent.isectStart * ms                  # position inside the mini stream (the root entry's chain)
             sect = ole.root.isectStart
             for _ in range(pos // ss):
                 sect = ole.fat[sect]
             off = (sect + 1) * ss + pos % ss
-        wd = ole.openstream("WordDocument").read(12)
-    old = struct.unpack_from("<H", data, off)[0]
-    if struct.unpack_from("<H", wd, 0x0A)[0] != old:
-        raise AssertionError("FIB flags word not located")
+        old = ole.openstream("WordDocument").read(32)
+    if len(old) != 32 or data[off:off + 32] != old:
+        raise AssertionError("FibBase not located")
+    want = bytearray(old)
+    for b in bits:
+        if not 0 <= b < 256:
+            raise ValueError("FibBase has 256 bits")
+        want[b // 8] ^= 1 << (b % 8)
     new = bytearray(data)
-    struct.pack_into("<H", new, off, old ^ 0x0100)
+    new[off:off + 32] = want
     with olefile.OleFileIO(io.BytesIO(bytes(new))) as ole:
-        chk = struct.unpack_from("<H", ole.openstream("WordDocument").read(12), 0x0A)[0]
-    if chk != old ^ 0x0100:
-        raise AssertionError("FIB patch did not land")
+        if ole.openstream("WordDocument").read(32) != bytes(want):
+            raise AssertionError("FIB patch did not land")
     return bytes(new), old
 
 
 def build_doc(fmt, case):
     with open(os.path.join(RES, case["file"]), "rb") as f:
         data = f.read()
+    if case["k"] == "fibbits":
+        bits = sorted(set(case["bits"]))
+        if len(bits) != len(case["bits"]):
+            raise AssertionError("a bit listed twice")
+        data, old = fib_patch(data, bits)
+        if struct.unpack_from("<H", old, 0)[0] != 0xA5EC:
+            raise AssertionError("fixture is not a Word 97 binary file")
+        was = bool(struct.unpack_from("<H", old, 0x0A)[0] & 0x0100)
+        now = was != (FIB_ENC_BIT in bits)
+        if now:
+            # fEncrypted = 1 whatever else the header says ([MS-DOC] 2.5.2); with a damaged wIdent it is no Word file at all: not judged
+            expect = "any" if any(b < 16 for b in bits) else "enc"
+        else:
+            # fEncrypted = 0: no other FibBase field says "encrypted" (fObfuscated and lKey "MUST be ignored" then); the really
+            # encrypted fixture with its bit cleared still holds cipher text: not judged
+            expect = "plain" if not was else "any"
+        return {"data": data, "ext": "doc", "expect": expect}
     patched, old = fib_toggle(data)
     was = bool(old & 0x0100)
     if case["toggle"]:
@@ -466,12 +638,17 @@ def pdf_doc(tk, d):
 
 
 @functools.lru_cache(maxsize=64)
-def _aes_pdf(alg, user, owner, d, seed):
+def _aes_pdf(alg, user, owner, d, seed, perm=-4):
     from verif.gen import pdfw
     from verif.gen.tokens import Tokens
     doc, images = pdf_doc(Tokens(seed), d)
     plain = pdfw.pdf(doc, images)
-    r = S.child("gen", {"plain": base64.b64encode(plain).decode(), "alg": alg, "user": user, "owner": owner})
+    job = {"plain": base64.b64encode(plain).decode(), "alg": alg, "user": user, "owner": owner}
+    if perm != -4:
+        job["perm"] = perm
+    r = S.child("gen", job)
+    if (r["P"] - perm) % (1 << 32):
+        raise AssertionError("/P %d asked, %d written" % (perm, r["P"]))
     return base64.b64decode(r["enc"]), base64.b64decode(r["clone"]), r["kat"]
 
 
@@ -491,11 +668,18 @@ def build_pdf(fmt, case):
         return {"data": pdfw.pdf(doc), "ext": "pdf", "expect": "plain"}
     doc, images = pdf_doc(tk, case["doc"])
     expect = "same" if case["user"] == "" else "enc"
+    perm = case.get("perm", -4)
     if case["alg"] in PDF_RC4:
         orig = pdfw.pdf(doc, images)
-        data = pdfw.pdf(doc, images, {"encrypt": {"user": case["user"], "owner": case["owner"], "algorithm": case["alg"]}})
+        e = {"user": case["user"], "owner": case["owner"], "algorithm": case["alg"]}
+        if perm != -4:
+            e["permissions"] = perm
+        data = pdfw.pdf(doc, images, {"encrypt": e})
+        if perm != -4 and (b"/P %d" % perm) not in data:
+            raise AssertionError("/P %d not written" % perm)
         return {"data": data, "ext": "pdf", "expect": expect, "orig": orig}
-    enc, clone, kat = _aes_pdf(case["alg"], case["user"], case["owner"], case["doc"], _seed())
+    enc, clone, kat = _aes_pdf(case["alg"], case["user"], case["owner"], case["doc"], _seed(), perm)
+
     return {"data": enc, "ext": "pdf", "expect": expect, "orig": clone, "kat": kat}
 
 
@@ -529,13 +713,22 @@ def build_zip(fmt, case):
                 members[idx]["data"] = _dummy(len(members[idx]["data"]) + 28, "aes%d" % idx)
             elif how == "strong":
                 members[idx]["flag_bits"] = 0x41          # PKWARE strong encryption: bits 0 and 6
+            elif how.startswith("flag+"):
+                members[idx]["flag_bits"] = 1 | (1 << int(how[5:]))          # forged bit 0 next to another general purpose bit
             else:
                 members[idx]["password"] = b"pw123"
         return {"data": zipforge.zipforge(members), "ext": "zip", "expect": "enc"}
+    expect = "plain"
     if case.get("odd"):
         idx, how = case["odd"]
         m = members[idx]
-        if how.startswith("method"):
+        if how.startswith("flagbit"):
+            m["flag_bits"] = 1 << int(how[7:])
+            if not 1 <= int(how[7:]) <= 15:
+                raise ValueError(how)
+            if int(how[7:]) in ZIP_FLAG_UNSETTLED:
+                expect = "any"
+        elif how.startswith("method"):
             m["method"] = int(how[6:])
         elif how == "badcrc":
             import zlib
@@ -544,7 +737,7 @@ def build_zip(fmt, case):
             m["flag_bits"] = 0x08
         elif how == "utf8flag":
             m["flag_bits"] = 0x800
-    return {"data": zipforge.zipforge(members), "ext": "zip", "expect": "plain"}
+    return {"data": zipforge.zipforge(members), "ext": "zip", "expect": expect}
 
 
 def sevenz_folders(n, layout):
@@ -722,6 +915,12 @@ def reexec(fmt, case):
 NEUTRAL = {"seam": "direct", "doc": 0, "size": 4096, "ver": 3, "method": 0, "stream": "Workbook", "playout": "ppt", "cu": True,
            "spell": "manifest", "xspell": "default", "layout": "solid", "coder": "copy", "header": "plain", "rights": False, "owner": "",
            "hcoder": "copy", "oext": "docx", "ext": "odt", "where": "path", "mode": "single"}
+# NEUTRAL is not applied to the families whose parameter space is tied to the value: "oext"/"ext" of the protection families (the
+# variants are per format)
+
+
+def _perm_cleared(perm):
+    return [b for b in PDF_PERM_BITS if not perm & (1 << (b - 1))]
 
 
 def shrinks(case):
@@ -729,11 +928,28 @@ def shrinks(case):
         if key in case and case[key] != nv:
             if key == "header" and case.get("k") == "enc-header":
                 continue
+            if key in ("oext", "ext") and case.get("k") == "protect":
+                continue
             c = dict(case)
             c[key] = nv
             if key == "layout" and "folder" in c:
                 c["folder"] = 0
             yield c
+    if len(case.get("bits", [])) > 1:
+        for b in case["bits"]:
+            c = dict(case)
+            c["bits"] = [x for x in case["bits"] if x != b]
+            yield c
+    if case.get("perm", -4) != -4:
+        c = dict(case)
+        c["perm"] = -4
+        yield c
+        cleared = _perm_cleared(case["perm"])
+        if len(cleared) > 1:
+            for b in cleared:
+                c = dict(case)
+                c["perm"] = -4 & ~(1 << (b - 1))
+                yield c
     if "needle" in case:
         for nd in ODF_NEEDLES:
             if nd != case["needle"] and nd in case["needle"]:
@@ -800,6 +1016,14 @@ def embeds(small, big):
             continue
         if key in ("entry", "folder", "target") and v == 0:
             continue
+        if key == "bits":
+            if not set(v) <= set(big.get("bits", [])):
+                return False
+            continue
+        if key == "perm":
+            if not set(_perm_cleared(v)) <= set(_perm_cleared(big.get("perm", -4))):
+                return False            # the small case clears a permission bit that the big one does not
+            continue
         if key == "needle":
             if v not in big.get("needle", ""):
                 return False
@@ -838,10 +1062,15 @@ def base_cases(tier):
         for d in (0, 1):
             for member in (None, "EncryptionInfo", "EncryptedPackage", "\x06DataSpaces/Version"):
                 yield "ooxml", {"k": "plain", "oext": fmt, "doc": d, "member": member}, all_seams if (d == 0 or not q) else ["direct"]
+            for v in OOXML_PROTECT[fmt]:
+                yield "ooxml", {"k": "protect", "oext": fmt, "doc": d, "v": v, "member": None}, all_seams if (d == 0 or not q) else ["direct"]
     # ---- ODF
     for fmt in ODF_FORMATS:
         for d in (0, 1):
             yield "odf", {"k": "plain", "ext": fmt, "doc": d}, all_seams
+            for v in ODF_PROTECT.get(fmt, []):
+                if d == 0 or fmt == "ods":
+                    yield "odf", {"k": "protect", "ext": fmt, "doc": d, "v": v}, all_seams
             nent = len(odf_entries(odf_base(fmt, d)))
             for entry in list(range(nent)) + ["all"]:
                 for spell in ("manifest", "m", "utf16"):
@@ -858,6 +1087,18 @@ def base_cases(tier):
                     continue
                 yield "xls", {"k": "filepass", "at": at, "stream": stream, "doc": d}, all_seams if (at <= 2 and d == 0) or not q and d == 0 else ["direct"]
             yield "xls", {"k": "plain", "doc": d, "stream": stream}, all_seams
+            # neighbours of FILEPASS, FILEPASS payload variants, editing-protection records
+            ats = [1, n - 1] if q or d else list(range(1, n))
+            for at in ats:
+                for rid in XLS_NEAR_IDS:
+                    if not q or (d == 0 and stream == "Workbook") or at == 1:
+                        yield "xls", {"k": "nearid", "id": rid, "at": at, "stream": stream, "doc": d}, all_seams if (at == 1 and d == 0 and stream == "Workbook") else ["direct"]
+                for v in XLS_FILEPASS_VARIANTS:
+                    if v != "rc4":                     # "rc4" at 1..n-1 is the k = "filepass" family above
+                        yield "xls", {"k": "filepass-v", "v": v, "at": at, "stream": stream, "doc": d}, all_seams if (at == 1 and d == 0) else ["direct"]
+            for v in XLS_PROTECT:
+                for at in (5, 14):
+                    yield "xls", {"k": "protect", "v": v, "at": at, "stream": stream, "doc": d}, all_seams if (d == 0 and (not q or v == "all")) else ["direct"]
         for v in XLS_LOOKS:
             yield "xls", {"k": "look", "v": v, "stream": stream}, all_seams if (not q or v == "all") else ["direct"]
     # ---- PPT
@@ -871,6 +1112,15 @@ def base_cases(tier):
     for f in DOC_FIXTURES:
         for tg in (False, True):
             yield "doc", {"k": "fib", "file": f, "toggle": tg}, all_seams
+        nb = FIB_QUICK_BITS if q else FIB_ALL_BITS
+        for b in nb:
+            if b == FIB_ENC_BIT:
+                continue            # flipped alone: the k = "fib" toggle above
+            yield "doc", {"k": "fibbits", "file": f, "bits": [b]}, all_seams if b in FIB_FLAG_BITS else ["direct"]
+            yield "doc", {"k": "fibbits", "file": f, "bits": sorted([b, FIB_ENC_BIT])}, all_seams if (b in FIB_FLAG_BITS and not q) else ["direct"]
+        rest = [b for b in FIB_FLAG_BITS if b != FIB_ENC_BIT]
+        yield "doc", {"k": "fibbits", "file": f, "bits": rest}, all_seams
+        yield "doc", {"k": "fibbits", "file": f, "bits": FIB_FLAG_BITS}, all_seams
     # ---- PDF
     for d in (0, 1, 2):
         yield "pdf", {"k": "plain", "doc": d}, all_seams
@@ -896,6 +1146,18 @@ def base_cases(tier):
     for alg in PDF_AES:
         if not (q and alg == "AES-256"):
             yield "pdf", {"k": "enc", "alg": alg, "user": "", "owner": "", "doc": 3, "state": "fresh"}, ["direct"]
+    # permission bits of /P: an empty user password opens the file whatever /P says
+    for alg in PDF_RC4:
+        for perm in PDF_PERMS:
+            for user, owner in PWS:
+                yield "pdf", {"k": "enc", "alg": alg, "user": user, "owner": owner, "doc": 0, "state": "inproc", "perm": perm}, \
+                    all_seams if (perm in (PDF_PERMS[2], PDF_PERMS[-1]) and owner == "") or not q else ["direct"]
+    for alg in PDF_AES:
+        for perm in PDF_PERMS:
+            if (q and alg == "AES-256") or ((q or alg == "AES-256") and perm not in (PDF_PERMS[2], PDF_PERMS[-1])):
+                continue            # AES-256 (R6) costs seconds per file in pure Python: two /P values in thorough, none in quick
+            for user, owner in (PWS[:1] if q else PWS):
+                yield "pdf", {"k": "enc", "alg": alg, "user": user, "owner": owner, "doc": 0, "state": "fresh", "perm": perm}, ["direct"] if q else SEAMS
     # ---- ZIP
     maxn = 3
     for nmem in range(1, maxn + 1):
@@ -912,6 +1174,14 @@ def base_cases(tier):
             for how in ZIP_ODD:
                 for method in (0, 8):
                     yield "zip", {"k": "plain", "kinds": ["t"] * nmem, "odd": [i, how], "method": method}, all_seams if (method == 8 or not q) else ["direct"]
+            for b in range(1, 16):
+                for method in (0, 8):
+                    if b not in (3, 11):          # bits 3 and 11 alone: "datadescriptor" / "utf8flag" above
+                        yield "zip", {"k": "plain", "kinds": ["t"] * nmem, "odd": [i, "flagbit%d" % b], "method": method}, \
+                            all_seams if (nmem == 1 and method == 8) or not q else ["direct"]
+                    if b != 6:                    # bits 0 + 6: "strong" above
+                        yield "zip", {"k": "enc", "kinds": ["t"] * nmem, "marks": [[i, "flag+%d" % b]], "method": method}, \
+                            all_seams if (nmem == 1 and method == 0) or not q else ["direct"]
         for method in (0, 8):
             yield "zip", {"k": "plain", "kinds": ["t"] * nmem, "odd": None, "method": method}, all_seams
     # ---- 7z
@@ -992,7 +1262,7 @@ def run(ctx):
     heavy = [(f, c) for f, c in allc if _is_heavy(f, c)]
     groups = {}
     for f, c in heavy:
-        key = (c["alg"], c["user"], c["owner"], c["doc"]) + ((c["seam"], c["state"]) if c["alg"] == "AES-256" and not ctx.quick else ())
+        key = (c["alg"], c["user"], c["owner"], c["doc"], c.get("perm", -4)) + ((c["seam"], c["state"]) if c["alg"] == "AES-256" and not ctx.quick else ())
         groups.setdefault(key, []).append((f, c))
     nparts = ctx.ncpu * 6
     rnd = random.Random(ctx.seed)
@@ -1034,7 +1304,15 @@ def run(ctx):
            "per_format": per_fmt, "per_expectation": expect_counts, "outcomes": dict(sorted(outs.items())), "samples": samples, "exhaustive": True,
            "bounds": {"tier": ctx.tier, "zip_members": "1..3", "7z_members": "1..3", "epub_chapters": "1..3", "xls_filepass_positions": "every globals record index",
                       "pdf": "5 algorithms x 4 password pairs x documents; AES-256 (R6) reduced to the empty password pair, one document, direct seam in quick",
-                      "ooxml_shell": "8 stream subsets x sizes x CFB versions x 3 readers"}}
+                      "ooxml_shell": "8 stream subsets x sizes x CFB versions x 3 readers",
+                      "doc_fib_bits": ("every bit of the 32-byte FibBase (256)" if not ctx.quick else "flags word 0x0A (16) + flag byte 0x13 (8) + lKey 0x0E (32)")
+                                      + " flipped alone and together with fEncrypted, on each of the 3 .doc fixtures; all other flag-word bits at once",
+                      "zip_flag_bits": "general purpose bits 1..15 alone and with bit 0, on member k of 1..3, methods 0 and 8",
+                      "xls_neighbours": "17 record numbers (one bit from 0x002F, 0x2F00) and 5 FILEPASS payload variants at globals index "
+                                        + ("1 and last" if ctx.quick else "every index (1 and last for the larger workbooks)") + "; 9 protection records + all, at index 5 and 14",
+                      "ooxml_protection": "3 + 4 + 1 protection markups (docx, xlsx, pptx) x 2 documents", "odf_protection": "ods table / odt section protection keys",
+                      "pdf_permissions": "/P with each of the 8 defined permission bits cleared and all cleared (9 values) x RC4-40/128 x 4 password pairs; "
+                                         + ("AES-128 / AES-256-R5 x {extract cleared, all cleared} x empty passwords" if ctx.quick else "x AES-128/256-R5 x 4 password pairs x 3 seams; AES-256 (R6) with {extract cleared, all cleared} only")}}
     return {"coverage": cov, "failures": fails, "harness_errors": herr,
             "assumptions": [
                 "OOXML shell: a compound file carrying the EncryptedPackage stream is 'encrypted'; shells with encryption streams but without "
@@ -1044,6 +1322,18 @@ def run(ctx):
                 "XLS: FILEPASS anywhere in the globals substream (record index 1 .. last before EOF) counts as encrypted, as the quantifier says; "
                 "index 0 (before BOF) is not generated",
                 "DOC: clearing the FIB bit of the really encrypted fixture leaves cipher text behind: that direction is not judged",
+                "DOC: fEncrypted (bit 8 of the FibBase flags word) is the only field of the FibBase that says 'encrypted' ([MS-DOC] 2.5.2: "
+                "fObfuscated and lKey MUST be ignored when fEncrypted is 0): a plain fixture with any other FibBase bit flipped may fail to "
+                "parse but is never 'encrypted'; with fEncrypted set and any other bit flipped it is 'encrypted' (unless wIdent is damaged: not judged)",
+                "ZIP: general purpose bits 1..15 without bit 0 are not encryption (compression options, data descriptor, patch data, UTF-8, "
+                "reserved); bits 6 and 13 alone are not judged; bit 0 together with any other bit is encryption",
+                "XLS: only record number 0x002F is FILEPASS; whatever its payload says (XOR obfuscation, RC4, CryptoAPI) the workbook is "
+                "encrypted; non-zero PROTECT / PASSWORD / WINDOWPROTECT / OBJPROTECT / SCENPROTECT / PROT4REV / PROT4REVPASS / FILESHARING / "
+                "WRITEPROT records are editing protection of a readable workbook: plain",
+                "OOXML / ODF: editing and write-protection markup with password hashes (documentProtection, writeProtection, sheetProtection, "
+                "workbookProtection, fileSharing, modifyVerifier, table:protection-key, text:protection-key) does not encrypt the package: plain",
+                "PDF: the permission bits of /P do not change what 'empty user password' means: the file opens without a password and must "
+                "extract like its unencrypted original",
                 "PDF: owner password '' means 'same as user password' (ISO 32000 Algorithm 3); a PDF is 'needing a password' iff its user "
                 "password is non-empty; with an empty user password the extraction (to_json minus filename/file_extension/file_path/"
                 "folder_path) must equal that of the same document written without encryption by the same writer",
